@@ -179,7 +179,9 @@ def r3_environment(ctx):
             continue
         f = {k: q.subst_simplify(q.novers(x), pmap) for k, x in dict(dict(env[3])["0"][3]).items()}
         mode, coin_, idx_, cdata_ = _input_mode(b)
-        tbl = {"parent_coinid": coin_, "parent_cdh": cdata_, "last_header": LH}
+        # the same value with the fallback spelled as an argument (`match .. { Some(h) => h, None => this.clone().seal(None).header() }` reads as unwrap_or)
+        LH_ALT = "Option::unwrap_or(SmtMapping::get($1.history, core::num::<impl u64>::saturating_sub($1.height.0, 1)), SealedState::header(UnsealedState::seal($1, Option::None{})))"
+        tbl = {"parent_coinid": coin_, "parent_cdh": cdata_, "last_header": {LH, LH_ALT}}
         if idx_ is not None:
             tbl["spender_index"] = {"(%s as u8)" % idx_, idx_}
         else:
